@@ -25,8 +25,8 @@ ID = "C09"
 TIE_MODULES = ["StathamModel.Tie"]
 ASSUMPTIONS = ["PARTIAL: the hash-ordered-iteration inventory is syntactic; process-to-process behaviour is observed on a finite set of hash seeds",
                "address-dependent orders (hashes of classes) vary with process layout rather than with PYTHONHASHSEED; several process instances per seed are run"]
-N_DOCS = {"quick": 120, "thorough": 3000}
-SEEDS = {"quick": ["0", "1", "2", "3", "random"], "thorough": [str(i) for i in range(24)] + ["random"] * 4}
+N_DOCS = {"quick": 120, "thorough": 600}
+SEEDS = {"quick": ["0", "1", "2", "3", "random"], "thorough": [str(i) for i in range(14)] + ["random"] * 2}
 WORKER = os.path.join(os.path.dirname(os.path.dirname(os.path.abspath(__file__))), "c09_worker.py")
 
 
@@ -83,7 +83,7 @@ def run(ctx, scale=1.0):
     out = Outcome()
     out.rule = ("documents: C02's reference documents + order-sensitive families (2-3 composition keywords with distinct equally-titled object branches, "
                 "2-6 undeclared required names, 4-10 properties over equally-titled definitions, pattern/dependency objects); every document is generated "
-                "in 5 (quick) / 28 (thorough) separate interpreter processes with different PYTHONHASHSEED; a case is one document across all processes; "
+                "in 5 (quick) / 16 (thorough) separate interpreter processes with different PYTHONHASHSEED; a case is one document across all processes; "
                 "non-trivial = at least two classes; distinct by SHA-256")
     stats = {}
     tmp = tempfile.mkdtemp(prefix="statham-c09-")
